@@ -218,6 +218,28 @@ def run(ctx):
         ctx.case(key_of(c), nontrivial=nontriv)
     for c in rng.sample(cases, 150 if ctx.tier == 'quick' else 1500):
         check_scaling(ctx, lentil, c, rng)
+    # the output shape is a pair of whole numbers however it is typed: an 8-bit integer array for a 50 x 50 output with oversample 3 (150
+    # samples) asks for the same output as the tuple (numeric comparison of the two calls; both propagators)
+    amp_s = np.ones((6, 7))
+    for sdt in (np.uint8, np.int8, np.int16, np.uint16):
+        for (shp, os_s) in (((50, 44), 3), ((100, 100), 3), ((128, 20), 2)):
+            if shp[0] > np.iinfo(sdt).max:
+                continue
+            ctx.case(('shape-dtype', np.dtype(sdt).name, shp, os_s))
+            w_s = lentil.Wavefront(5e-7) * lentil.Pupil(amplitude=amp_s, pixelscale=1e-3, focal_length=2.0)
+            du_s = 5e-7 * 2.0 * os_s / (400 * 1e-3)            # 1/alpha = 400
+            try:
+                a_ = lentil.propagate_dft(w_s, pixelscale=du_s, shape=shp, oversample=os_s)
+                b_ = lentil.propagate_dft(w_s, pixelscale=du_s, shape=np.array(shp, dtype=sdt), prop_shape=np.array(shp, dtype=sdt), oversample=os_s)
+                c_ = lentil.propagate_fft(w_s, pixelscale=du_s, shape=np.array(shp, dtype=sdt), oversample=os_s)
+                ok = tuple(int(v) for v in a_.shape) == tuple(int(v) for v in b_.shape) == tuple(int(v) for v in c_.shape) == (shp[0] * os_s, shp[1] * os_s) \
+                    and np.allclose(a_.field, b_.field, rtol=0, atol=1e-12) and np.allclose(a_.field, c_.field, rtol=0, atol=1e-9)
+                err = None
+            except Exception as ex:
+                ok, err = False, repr(ex)[:160]
+            if not ok:
+                ctx.violation({'kind': 'output-shape-depends-on-the-integer-type-of-shape', 'shape_dtype': np.dtype(sdt).name},
+                              {'shape': list(shp), 'oversample': os_s, 'error': err}, case=None)
     ox.binding_selftest(ctx, lentil, cases[0], spec[cases[0]['id']])
     ctx.traces += len(cases)
     ctx.sample({'case': cases[0], 'spec_observations': spec[0]['obs']}, maxn=1)
